@@ -1,10 +1,811 @@
-//! C18 — stub: property not yet claimed.
+//! C18 — health service: Check / Watch report the latest status.
+//!
+//! Sequential cases (`seq …`) drive the real `HealthReporter` + `HealthServer` pair returned by
+//! `tonic_health::server::health_reporter()` through the generated `HealthClient`, in-process
+//! (the server is the client's transport, so every call runs the real codec, router arm and
+//! `HealthService`).  No tokio runtime is entered for them: the futures are polled by a small
+//! executor with a flag waker, so `next` on a watch stream is "poll until settled" and a stream
+//! with nothing to report is the observable `pend`.
+//!
+//! Concurrent cases (`conc <seed> <set-up ops> | <program> | <program> …`) run the set-up alone,
+//! then one task per program on a shared multi-thread tokio runtime, and record a history
+//! `<task> <inv> <res> <answer>` with global invocation/response stamps; polls of a stream are
+//! single polls (`pend` if not ready).  When every task has finished its program, tasks that
+//! hold a stream drain it (extra records).  The Lean driver searches for a linearization of the
+//! history (see Driver/C18.lean for how windows and `pend` answers are treated).
 use crate::common::*;
+use std::future::Future;
+use std::pin::Pin;
+use std::sync::atomic::{AtomicBool, AtomicU64, Ordering};
+use std::sync::{Arc, OnceLock};
+use std::task::{Context, Poll, Wake, Waker};
+use tonic_health::pb::health_client::HealthClient;
+use tonic_health::pb::health_server::{Health, HealthServer};
+use tonic_health::pb::HealthCheckRequest;
+use tonic_health::server::{health_reporter, HealthReporter};
+use tonic_health::ServingStatus;
 
-pub fn generate(_tier: &str, _rng: &mut Rng) -> Vec<String> {
-    Vec::new()
+// ---------------------------------------------------------------------------------------------
+// case vocabulary
+
+#[derive(Clone, Debug)]
+enum Op {
+    Set(usize, String, u8), // reporter handle, name, status 0/1/2
+    Serving(usize),         // set_serving::<HealthServer<_>>()
+    NotServing(usize),      // set_not_serving::<HealthServer<_>>()
+    Clear(usize, String),
+    Check(usize, String), // client handle, name
+    Watch(usize, String),
+    Next(usize), // watcher slot (seq) / ignored (conc: the task's own watcher)
+    Drop(usize),
 }
 
-pub fn execute(_case: &str) -> String {
-    "unclaimed".into()
+/// `NamedService::NAME` of `HealthServer<_>` — what `set_serving::<HealthServer<_>>()` sets.
+const SVC_NAME: &str = "grpc.health.v1.Health";
+
+fn name_tok(n: &str) -> String {
+    hex(n.as_bytes())
+}
+
+fn op_tokens(op: &Op) -> String {
+    match op {
+        Op::Set(r, n, s) => format!("s {} {} {}", r, name_tok(n), s),
+        Op::Serving(r) => format!("sv {}", r),
+        Op::NotServing(r) => format!("nsv {}", r),
+        Op::Clear(r, n) => format!("c {} {}", r, name_tok(n)),
+        Op::Check(c, n) => format!("k {} {}", c, name_tok(n)),
+        Op::Watch(c, n) => format!("w {} {}", c, name_tok(n)),
+        Op::Next(w) => format!("n {}", w),
+        Op::Drop(w) => format!("d {}", w),
+    }
+}
+
+fn ops_tokens(ops: &[Op]) -> String {
+    ops.iter().map(op_tokens).collect::<Vec<_>>().join(" ")
+}
+
+fn parse_name(t: &str) -> Option<String> {
+    String::from_utf8(unhex(t)?).ok()
+}
+
+/// Parses a flat op token list; `None` on a malformed list.
+fn parse_ops(t: &[&str]) -> Option<Vec<Op>> {
+    let mut out = Vec::new();
+    let mut i = 0;
+    let num = |s: &str| s.parse::<usize>().ok();
+    while i < t.len() {
+        match t[i] {
+            "s" if i + 3 < t.len() => {
+                let st = num(t[i + 3])?;
+                if st > 2 {
+                    return None;
+                }
+                out.push(Op::Set(num(t[i + 1])?, parse_name(t[i + 2])?, st as u8));
+                i += 4;
+            }
+            "sv" if i + 1 < t.len() => {
+                out.push(Op::Serving(num(t[i + 1])?));
+                i += 2;
+            }
+            "nsv" if i + 1 < t.len() => {
+                out.push(Op::NotServing(num(t[i + 1])?));
+                i += 2;
+            }
+            "c" if i + 2 < t.len() => {
+                out.push(Op::Clear(num(t[i + 1])?, parse_name(t[i + 2])?));
+                i += 3;
+            }
+            "k" if i + 2 < t.len() => {
+                out.push(Op::Check(num(t[i + 1])?, parse_name(t[i + 2])?));
+                i += 3;
+            }
+            "w" if i + 2 < t.len() => {
+                out.push(Op::Watch(num(t[i + 1])?, parse_name(t[i + 2])?));
+                i += 3;
+            }
+            "n" if i + 1 < t.len() => {
+                out.push(Op::Next(num(t[i + 1])?));
+                i += 2;
+            }
+            "d" if i + 1 < t.len() => {
+                out.push(Op::Drop(num(t[i + 1])?));
+                i += 2;
+            }
+            _ => return None,
+        }
+    }
+    Some(out)
+}
+
+fn status_of(s: u8) -> ServingStatus {
+    match s {
+        0 => ServingStatus::Unknown,
+        1 => ServingStatus::Serving,
+        _ => ServingStatus::NotServing,
+    }
+}
+
+// ---------------------------------------------------------------------------------------------
+// a tiny executor: poll until the future is ready or has settled as pending
+
+struct Flag(AtomicBool);
+impl Wake for Flag {
+    fn wake(self: Arc<Self>) {
+        self.0.store(true, Ordering::SeqCst);
+    }
+    fn wake_by_ref(self: &Arc<Self>) {
+        self.0.store(true, Ordering::SeqCst);
+    }
+}
+
+enum Settled<T> {
+    Ready(T),
+    Pending,
+    Busy,
+}
+
+fn settle<F: Future>(mut fut: Pin<&mut F>) -> Settled<F::Output> {
+    let flag = Arc::new(Flag(AtomicBool::new(false)));
+    let waker = Waker::from(flag.clone());
+    let mut cx = Context::from_waker(&waker);
+    for _ in 0..1000 {
+        flag.0.store(false, Ordering::SeqCst);
+        match fut.as_mut().poll(&mut cx) {
+            Poll::Ready(v) => return Settled::Ready(v),
+            Poll::Pending => {
+                if !flag.0.load(Ordering::SeqCst) {
+                    return Settled::Pending;
+                }
+            }
+        }
+    }
+    Settled::Busy
+}
+
+/// For calls that must complete without outside help (everything except `next`).
+fn complete<F: Future>(fut: F) -> Result<F::Output, &'static str> {
+    let mut fut = std::pin::pin!(fut);
+    match settle(fut.as_mut()) {
+        Settled::Ready(v) => Ok(v),
+        Settled::Pending => Err("hang"),
+        Settled::Busy => Err("busy-loop"),
+    }
+}
+
+fn wire_status_tok(prefix: &str, v: i32) -> String {
+    match v {
+        0..=2 => format!("{}{}", prefix, v),
+        other => format!("{}?{}", prefix, other),
+    }
+}
+
+fn err_tok(st: &tonic::Status) -> String {
+    if st.code() == tonic::Code::NotFound {
+        "nf".into()
+    } else {
+        format!("err{}", st.code() as i32)
+    }
+}
+
+type Stream = tonic::Streaming<tonic_health::pb::HealthCheckResponse>;
+
+fn next_tok(stream: &mut Stream) -> String {
+    let fut = stream.message();
+    let mut fut = std::pin::pin!(fut);
+    match settle(fut.as_mut()) {
+        Settled::Ready(Ok(Some(m))) => wire_status_tok("v", m.status),
+        Settled::Ready(Ok(None)) => "end".into(),
+        Settled::Ready(Err(st)) => format!("err{}", st.code() as i32),
+        Settled::Pending => "pend".into(),
+        Settled::Busy => "busy-loop".into(),
+    }
+}
+
+// ---------------------------------------------------------------------------------------------
+// sequential runs
+
+fn run_seq<T: Health>(reporter: HealthReporter, server: HealthServer<T>, ops: &[Op]) -> String {
+    // two handles of everything that can be cloned: clones must share the one table
+    let mut reporters = [reporter.clone(), reporter];
+    let mut clients = [HealthClient::new(server.clone()), HealthClient::new(server)];
+    let mut watchers: Vec<Option<Stream>> = Vec::new();
+    let mut out: Vec<String> = Vec::with_capacity(ops.len());
+    for op in ops {
+        let tok = match op {
+            Op::Set(r, n, s) => {
+                match complete(reporters[r % 2].set_service_status(n.as_str(), status_of(*s))) {
+                    Ok(()) => "ok".to_string(),
+                    Err(e) => e.to_string(),
+                }
+            }
+            Op::Serving(r) => match complete(reporters[r % 2].set_serving::<HealthServer<T>>()) {
+                Ok(()) => "ok".to_string(),
+                Err(e) => e.to_string(),
+            },
+            Op::NotServing(r) => match complete(reporters[r % 2].set_not_serving::<HealthServer<T>>()) {
+                Ok(()) => "ok".to_string(),
+                Err(e) => e.to_string(),
+            },
+            Op::Clear(r, n) => match complete(reporters[r % 2].clear_service_status(n.as_str())) {
+                Ok(()) => "ok".to_string(),
+                Err(e) => e.to_string(),
+            },
+            Op::Check(c, n) => {
+                let req = HealthCheckRequest { service: n.clone() };
+                match complete(clients[c % 2].check(req)) {
+                    Ok(Ok(resp)) => wire_status_tok("st", resp.into_inner().status),
+                    Ok(Err(st)) => err_tok(&st),
+                    Err(e) => e.to_string(),
+                }
+            }
+            Op::Watch(c, n) => {
+                let req = HealthCheckRequest { service: n.clone() };
+                match complete(clients[c % 2].watch(req)) {
+                    Ok(Ok(resp)) => {
+                        watchers.push(Some(resp.into_inner()));
+                        "sub".to_string()
+                    }
+                    Ok(Err(st)) => {
+                        watchers.push(None);
+                        err_tok(&st)
+                    }
+                    Err(e) => {
+                        watchers.push(None);
+                        e.to_string()
+                    }
+                }
+            }
+            Op::Next(w) => match watchers.get_mut(*w) {
+                Some(Some(stream)) => next_tok(stream),
+                _ => "now".to_string(),
+            },
+            Op::Drop(w) => match watchers.get_mut(*w) {
+                Some(slot @ Some(_)) => {
+                    *slot = None;
+                    "ok".to_string()
+                }
+                _ => "now".to_string(),
+            },
+        };
+        out.push(tok);
+    }
+    out.join(" ")
+}
+
+// ---------------------------------------------------------------------------------------------
+// concurrent runs
+
+fn conc_rt() -> &'static tokio::runtime::Runtime {
+    static RT: OnceLock<tokio::runtime::Runtime> = OnceLock::new();
+    RT.get_or_init(|| {
+        tokio::runtime::Builder::new_multi_thread()
+            .worker_threads(8)
+            .enable_all()
+            .build()
+            .unwrap()
+    })
+}
+
+/// One poll of `message()` with the task's own waker, outside tokio's cooperative budget (so a
+/// `Pending` means the stream had nothing, never "budget exhausted").
+async fn try_next(stream: &mut Stream) -> String {
+    let mut fut = std::pin::pin!(tokio::task::unconstrained(stream.message()));
+    std::future::poll_fn(|cx| {
+        Poll::Ready(match fut.as_mut().poll(cx) {
+            Poll::Ready(Ok(Some(m))) => wire_status_tok("v", m.status),
+            Poll::Ready(Ok(None)) => "end".to_string(),
+            Poll::Ready(Err(st)) => format!("err{}", st.code() as i32),
+            Poll::Pending => "pend".to_string(),
+        })
+    })
+    .await
+}
+
+async fn jitter(rng: &mut Rng) {
+    match rng.below(8) {
+        0 => tokio::task::yield_now().await,
+        1 => std::thread::yield_now(),
+        2 => {
+            for _ in 0..rng.below(200) {
+                std::hint::spin_loop();
+            }
+        }
+        3 => {
+            tokio::task::yield_now().await;
+            tokio::task::yield_now().await;
+        }
+        _ => {}
+    }
+}
+
+async fn run_program<T: Health>(
+    tid: usize,
+    mut reporter: HealthReporter,
+    server: HealthServer<T>,
+    ops: Vec<Op>,
+    clock: Arc<AtomicU64>,
+    mut rng: Rng,
+    quiesce: Arc<tokio::sync::Barrier>,
+) -> Vec<String> {
+    let mut client = HealthClient::new(server);
+    let mut watcher: Option<Stream> = None;
+    let mut out = Vec::new();
+    for op in ops {
+        jitter(&mut rng).await;
+        let inv = clock.fetch_add(1, Ordering::SeqCst);
+        let res = match &op {
+            Op::Set(_, n, s) => {
+                reporter.set_service_status(n.as_str(), status_of(*s)).await;
+                "ok".to_string()
+            }
+            Op::Serving(_) => {
+                reporter.set_serving::<HealthServer<T>>().await;
+                "ok".to_string()
+            }
+            Op::NotServing(_) => {
+                reporter.set_not_serving::<HealthServer<T>>().await;
+                "ok".to_string()
+            }
+            Op::Clear(_, n) => {
+                reporter.clear_service_status(n.as_str()).await;
+                "ok".to_string()
+            }
+            Op::Check(_, n) => match client.check(HealthCheckRequest { service: n.clone() }).await {
+                Ok(resp) => wire_status_tok("st", resp.into_inner().status),
+                Err(st) => err_tok(&st),
+            },
+            Op::Watch(_, n) => match client.watch(HealthCheckRequest { service: n.clone() }).await {
+                Ok(resp) => {
+                    watcher = Some(resp.into_inner());
+                    "sub".to_string()
+                }
+                Err(st) => {
+                    watcher = None;
+                    err_tok(&st)
+                }
+            },
+            Op::Next(_) => match watcher.as_mut() {
+                Some(s) => try_next(s).await,
+                None => "now".to_string(),
+            },
+            Op::Drop(_) => match watcher.take() {
+                Some(_) => "ok".to_string(),
+                None => "now".to_string(),
+            },
+        };
+        let resp = clock.fetch_add(1, Ordering::SeqCst);
+        out.push(format!("{} {} {} {}", tid, inv, resp, res));
+    }
+    // every program has finished: updates have stopped.  A task that still holds a stream
+    // drains it (extra `next` records beyond its program) until it has nothing more to say.
+    quiesce.wait().await;
+    if let Some(s) = watcher.as_mut() {
+        for _ in 0..8 {
+            let inv = clock.fetch_add(1, Ordering::SeqCst);
+            let res = try_next(s).await;
+            let resp = clock.fetch_add(1, Ordering::SeqCst);
+            let stop = res == "pend" || res == "end" || res.starts_with("err");
+            out.push(format!("{} {} {} {}", tid, inv, resp, res));
+            if stop {
+                break;
+            }
+        }
+    }
+    out
+}
+
+fn run_conc<T: Health + 'static>(
+    reporter: HealthReporter,
+    server: HealthServer<T>,
+    seed: u64,
+    programs: Vec<Vec<Op>>,
+) -> String
+where
+    HealthServer<T>: Clone + Send + 'static,
+{
+    let clock = Arc::new(AtomicU64::new(0));
+    let mut rng = Rng::new(seed);
+    let rt = conc_rt();
+    let mut out = Vec::new();
+    // segment 0 is the set-up: it runs alone, to completion, before the tasks start (task id 0)
+    let mut programs = programs.into_iter();
+    let setup = programs.next().unwrap_or_default();
+    {
+        let alone = Arc::new(tokio::sync::Barrier::new(1));
+        let fut = run_program(0, reporter.clone(), server.clone(), setup, clock.clone(), Rng(0), alone);
+        match rt.block_on(async { tokio::time::timeout(std::time::Duration::from_secs(20), rt.spawn(fut)).await }) {
+            Ok(Ok(v)) => out.extend(v),
+            Ok(Err(_)) => return "panic".into(),
+            Err(_) => return "hang".into(),
+        }
+    }
+    let programs: Vec<Vec<Op>> = programs.collect();
+    let barrier = Arc::new(tokio::sync::Barrier::new(programs.len()));
+    let quiesce = Arc::new(tokio::sync::Barrier::new(programs.len()));
+    let handles: Vec<_> = programs
+        .into_iter()
+        .enumerate()
+        .map(|(i, ops)| {
+            let tid = i + 1;
+            let reporter = reporter.clone();
+            let server = server.clone();
+            let clock = clock.clone();
+            let r = rng.fork();
+            let barrier = barrier.clone();
+            let quiesce = quiesce.clone();
+            rt.spawn(async move {
+                barrier.wait().await;
+                run_program(tid, reporter, server, ops, clock, r, quiesce).await
+            })
+        })
+        .collect();
+    for h in handles {
+        match rt.block_on(async { tokio::time::timeout(std::time::Duration::from_secs(20), h).await }) {
+            Ok(Ok(v)) => out.extend(v),
+            Ok(Err(_)) => return "panic".into(),
+            Err(_) => return "hang".into(),
+        }
+    }
+    out.join(" ")
+}
+
+// ---------------------------------------------------------------------------------------------
+// entry points
+
+pub fn execute(case: &str) -> String {
+    let t: Vec<&str> = case.split(' ').filter(|s| !s.is_empty()).collect();
+    match t.first().copied() {
+        Some("seq") => match parse_ops(&t[1..]) {
+            Some(ops) => {
+                let (reporter, server) = health_reporter();
+                run_seq(reporter, server, &ops)
+            }
+            None => "bad-case".into(),
+        },
+        Some("conc") if t.len() >= 2 => {
+            let Ok(seed) = t[1].parse::<u64>() else { return "bad-case".into() };
+            let mut programs = Vec::new();
+            for part in t[2..].split(|x| *x == "|") {
+                match parse_ops(part) {
+                    Some(ops) => programs.push(ops),
+                    None => return "bad-case".into(),
+                }
+            }
+            if programs.len() < 2 || programs[1..].iter().all(|p| p.is_empty()) {
+                return "bad-case".into();
+            }
+            let (reporter, server) = health_reporter();
+            run_conc(reporter, server, seed, programs)
+        }
+        _ => "bad-case".into(),
+    }
+}
+
+const NAMES_SMALL: [&str; 2] = ["", "a"];
+/// Names chosen so that a lookup that is not exact string equality shows: case, prefix,
+/// trailing dot, the `NamedService::NAME` used by `set_serving`, a non-ASCII name.
+const NAMES: [&str; 10] = ["", "a", "A", "a.b", "a.", "ab", SVC_NAME, "é", " ", LONG_NAME];
+/// longer than any inline buffer a lookup might use
+const LONG_NAME: &str = "pkg.sub.VeryLongServiceName0123456789.pkg.sub.VeryLongServiceName0123456789.pkg.sub.VeryLongServiceName0123456789.pkg.sub.VeryLongServiceName0123456789.pkg.sub.VeryLongServiceName0123456789.pkg.sub.VeryLongServiceName0123456789.pkg.sub.VeryLongServiceName0123456789.X";
+
+fn rand_name(rng: &mut Rng) -> String {
+    match rng.below(10) {
+        0..=2 => "".to_string(),
+        3..=5 => "a".to_string(),
+        _ => rng.pick(&NAMES).to_string(),
+    }
+}
+
+/// Generator-side bookkeeping, only to bias choices (which names are probably registered, which
+/// slots probably hold a stream); it decides nothing about expected answers.
+struct Bias {
+    registered: Vec<String>,
+    slots: Vec<bool>,
+}
+
+impl Bias {
+    fn new() -> Self {
+        Bias { registered: vec!["".to_string()], slots: Vec::new() }
+    }
+    fn note(&mut self, op: &Op) {
+        match op {
+            Op::Set(_, n, _) => {
+                if !self.registered.contains(n) {
+                    self.registered.push(n.clone());
+                }
+            }
+            Op::Serving(_) | Op::NotServing(_) => {
+                if !self.registered.iter().any(|x| x == SVC_NAME) {
+                    self.registered.push(SVC_NAME.to_string());
+                }
+            }
+            Op::Clear(_, n) => self.registered.retain(|x| x != n),
+            Op::Watch(_, n) => self.slots.push(self.registered.contains(n)),
+            Op::Drop(w) => {
+                if let Some(s) = self.slots.get_mut(*w) {
+                    *s = false;
+                }
+            }
+            _ => {}
+        }
+    }
+    fn slot(&self, rng: &mut Rng) -> usize {
+        let live: Vec<usize> = self.slots.iter().enumerate().filter(|(_, l)| **l).map(|(i, _)| i).collect();
+        if !live.is_empty() && rng.chance(9, 10) {
+            *rng.pick(&live)
+        } else {
+            rng.below(self.slots.len() as u64 + 2) as usize
+        }
+    }
+    fn reg_name(&self, rng: &mut Rng, names: &dyn Fn(&mut Rng) -> String) -> String {
+        if !self.registered.is_empty() && rng.chance(3, 4) {
+            rng.pick(&self.registered).clone()
+        } else {
+            names(rng)
+        }
+    }
+}
+
+fn rand_op(rng: &mut Rng, bias: &mut Bias, names: &dyn Fn(&mut Rng) -> String) -> Op {
+    let h = rng.below(2) as usize;
+    let op = match rng.below(20) {
+        0..=4 => Op::Set(h, names(rng), rng.below(3) as u8),
+        5 => {
+            if rng.chance(1, 2) {
+                Op::Serving(h)
+            } else {
+                Op::NotServing(h)
+            }
+        }
+        6 => Op::Clear(h, bias.reg_name(rng, names)),
+        7..=9 => Op::Check(h, names(rng)),
+        10..=12 => Op::Watch(h, bias.reg_name(rng, names)),
+        13..=18 => Op::Next(bias.slot(rng)),
+        _ => Op::Drop(bias.slot(rng)),
+    };
+    bias.note(&op);
+    op
+}
+
+/// Every op sequence of length exactly `len` over the small alphabet (names "" and "a",
+/// statuses 1 and 2 plus `set a 0`), `next`/`drop` only on slots that exist.
+fn enumerate(len: usize, out: &mut Vec<String>) {
+    fn rec(len: usize, cur: &mut Vec<Op>, nwatch: usize, out: &mut Vec<String>) {
+        if cur.len() == len {
+            out.push(format!("seq {}", ops_tokens(cur)));
+            return;
+        }
+        let mut alphabet: Vec<Op> = Vec::new();
+        for n in NAMES_SMALL {
+            alphabet.push(Op::Set(0, n.to_string(), 1));
+            alphabet.push(Op::Set(0, n.to_string(), 2));
+            alphabet.push(Op::Clear(0, n.to_string()));
+            alphabet.push(Op::Check(0, n.to_string()));
+            alphabet.push(Op::Watch(0, n.to_string()));
+        }
+        for w in 0..nwatch.min(2) {
+            alphabet.push(Op::Next(w));
+        }
+        for op in alphabet {
+            let nw = nwatch + matches!(op, Op::Watch(..)) as usize;
+            cur.push(op);
+            rec(len, cur, nw, out);
+            cur.pop();
+        }
+    }
+    rec(len, &mut Vec::new(), 0, out);
+}
+
+/// Every sequence of length `len` over {set a 1, set a 2, clear a, watch a, next 0, next 1}
+/// (streams are polled only once they exist), followed by `next 0 next 0 next 1 next 1 check a`.
+fn enumerate_one_name(len: usize, out: &mut Vec<String>) {
+    fn rec(len: usize, cur: &mut Vec<Op>, nwatch: usize, out: &mut Vec<String>) {
+        if cur.len() == len {
+            let mut ops = cur.clone();
+            for w in 0..nwatch.min(2) {
+                ops.push(Op::Next(w));
+                ops.push(Op::Next(w));
+            }
+            ops.push(Op::Check(0, "a".to_string()));
+            out.push(format!("seq {}", ops_tokens(&ops)));
+            return;
+        }
+        let a = "a".to_string();
+        let mut alphabet: Vec<Op> = vec![Op::Set(0, a.clone(), 1), Op::Set(0, a.clone(), 2), Op::Clear(0, a.clone())];
+        if nwatch < 2 {
+            alphabet.push(Op::Watch(0, a.clone()));
+        }
+        for w in 0..nwatch.min(2) {
+            alphabet.push(Op::Next(w));
+        }
+        for op in alphabet {
+            let nw = nwatch + matches!(op, Op::Watch(..)) as usize;
+            cur.push(op);
+            rec(len, cur, nw, out);
+            cur.pop();
+        }
+    }
+    rec(len, &mut Vec::new(), 0, out);
+}
+
+pub fn generate(tier: &str, rng: &mut Rng) -> Vec<String> {
+    let thorough = tier == "thorough";
+    let mut out: Vec<String> = Vec::new();
+    let a = "a".to_string();
+    let e = "".to_string();
+    // ---- corpus: the two unit-test sequences of tonic-health, and the sequences on which the
+    // clauses of the property are decided
+    let corpus: Vec<Vec<Op>> = vec![
+        vec![],
+        vec![Op::Check(0, e.clone()), Op::Check(0, a.clone())],
+        vec![Op::Watch(0, e.clone()), Op::Next(0), Op::Next(0)],
+        vec![Op::Watch(0, a.clone()), Op::Next(0)],
+        // watch, coalescing, same-value set, clear after unseen value, end, re-registration
+        vec![
+            Op::Set(0, a.clone(), 0),
+            Op::Watch(0, a.clone()),
+            Op::Next(0),
+            Op::Set(0, a.clone(), 2),
+            Op::Next(0),
+            Op::Set(1, a.clone(), 1),
+            Op::Set(0, a.clone(), 2),
+            Op::Next(0),
+            Op::Next(0),
+            Op::Set(0, a.clone(), 2),
+            Op::Next(0),
+            Op::Set(0, a.clone(), 1),
+            Op::Clear(0, a.clone()),
+            Op::Check(0, a.clone()),
+            Op::Next(0),
+            Op::Next(0),
+            Op::Next(0),
+            Op::Set(0, a.clone(), 1),
+            Op::Next(0),
+            Op::Watch(1, a.clone()),
+            Op::Next(1),
+            Op::Next(0),
+        ],
+        // subscribed but never polled before the clear: the unseen status, then end
+        vec![Op::Set(0, a.clone(), 2), Op::Watch(0, a.clone()), Op::Clear(0, a.clone()), Op::Next(0), Op::Next(0)],
+        // subscribed, update before the first poll: first report is the coalesced latest
+        vec![Op::Set(0, a.clone(), 2), Op::Watch(0, a.clone()), Op::Set(0, a.clone(), 1), Op::Next(0), Op::Next(0)],
+        // clearing the overall-health name
+        vec![Op::Watch(0, e.clone()), Op::Clear(0, e.clone()), Op::Check(0, e.clone()), Op::Next(0), Op::Next(0), Op::Set(0, e.clone(), 2), Op::Check(0, e.clone()), Op::Next(0)],
+        // set_serving / set_not_serving use NamedService::NAME
+        vec![Op::Serving(0), Op::Check(0, SVC_NAME.to_string()), Op::Watch(0, SVC_NAME.to_string()), Op::NotServing(1), Op::Next(0), Op::Check(1, SVC_NAME.to_string())],
+        // two watchers, one dropped; clear of another name leaves them alone
+        vec![Op::Set(0, a.clone(), 1), Op::Watch(0, a.clone()), Op::Watch(1, a.clone()), Op::Next(0), Op::Drop(0), Op::Set(0, a.clone(), 2), Op::Clear(0, "A".to_string()), Op::Next(0), Op::Next(1), Op::Next(1), Op::Drop(0), Op::Next(7)],
+        // near-miss names
+        vec![Op::Set(0, a.clone(), 1), Op::Check(0, "A".to_string()), Op::Check(0, "a.".to_string()), Op::Check(0, "ab".to_string()), Op::Check(0, e.clone()), Op::Watch(0, "A".to_string()), Op::Next(0)],
+    ];
+    for c in &corpus {
+        out.push(format!("seq {}", ops_tokens(c)));
+    }
+    // ---- structured: random op sequences, lengths biased to short and to long
+    let nrand = if thorough { 120000 } else { 15000 };
+    for i in 0..nrand {
+        let len = match rng.below(6) {
+            0 => rng.range(1, 4),
+            1..=3 => rng.range(5, 16),
+            4 => rng.range(17, 40),
+            _ => rng.range(41, 90),
+        } as usize;
+        let small = i % 3 != 0;
+        let names: &dyn Fn(&mut Rng) -> String = if small {
+            &|r: &mut Rng| r.pick(&NAMES_SMALL).to_string()
+        } else {
+            &rand_name
+        };
+        let mut bias = Bias::new();
+        let ops: Vec<Op> = (0..len).map(|_| rand_op(rng, &mut bias, names)).collect();
+        out.push(format!("seq {}", ops_tokens(&ops)));
+    }
+    // ---- watcher-centred: one name, many watchers subscribed at different points, bursts of
+    // updates between polls (coalescing), clear / re-register cycles
+    let nrand = if thorough { 60000 } else { 6000 };
+    for _ in 0..nrand {
+        let n = if rng.chance(1, 3) { e.clone() } else { a.clone() };
+        let mut ops = Vec::new();
+        let mut nwatch = 0usize;
+        let len = rng.range(6, 40) as usize;
+        if !n.is_empty() && rng.chance(9, 10) {
+            ops.push(Op::Set(0, n.clone(), rng.below(3) as u8));
+        }
+        if rng.chance(2, 3) {
+            nwatch += 1;
+            ops.push(Op::Watch(0, n.clone()));
+        }
+        for _ in 0..len {
+            let h = rng.below(2) as usize;
+            let op = match rng.below(16) {
+                0..=4 => Op::Set(h, n.clone(), rng.below(3) as u8),
+                5 => Op::Clear(h, n.clone()),
+                6 => Op::Check(h, n.clone()),
+                7..=8 => {
+                    nwatch += 1;
+                    Op::Watch(h, n.clone())
+                }
+                9 => Op::Set(h, if n.is_empty() { a.clone() } else { e.clone() }, rng.below(3) as u8),
+                _ => Op::Next(if nwatch == 0 { 0 } else { rng.below(nwatch as u64) as usize }),
+            };
+            ops.push(op);
+        }
+        // final drain: every watcher is polled twice after updates have stopped
+        for w in 0..nwatch {
+            ops.push(Op::Next(w));
+            ops.push(Op::Next(w));
+        }
+        ops.push(Op::Check(0, n.clone()));
+        out.push(format!("seq {}", ops_tokens(&ops)));
+    }
+    // ---- small-scope exhaustive: two names, every sequence up to a length
+    let maxlen = if thorough { 6 } else { 4 };
+    for len in 1..=maxlen {
+        enumerate(len, &mut out);
+    }
+    // ---- small-scope exhaustive, deep: one name, two streams, every sequence up to a length,
+    // each followed by a drain of both streams and a Check (so every sequence also decides
+    // "once updates stop the stream delivers the latest status and then stays silent / is over")
+    let maxlen = if thorough { 8 } else { 6 };
+    for len in 0..=maxlen {
+        enumerate_one_name(len, &mut out);
+    }
+    // ---- concurrent histories
+    if thorough {
+        gen_conc(rng, 40000, &mut out);
+    } else {
+        gen_conc(rng, 4000, &mut out);
+    }
+    out
+}
+
+fn gen_conc(rng: &mut Rng, count: usize, out: &mut Vec<String>) {
+    for _ in 0..count {
+        let n = if rng.chance(1, 4) { "".to_string() } else { "a".to_string() };
+        // set-up (runs alone first): usually registers the name, sometimes leaves it unset
+        let mut setup: Vec<Op> = Vec::new();
+        if !n.is_empty() && rng.chance(5, 6) {
+            setup.push(Op::Set(0, n.clone(), rng.below(3) as u8));
+        }
+        let nthreads = rng.range(2, 4) as usize;
+        let mut programs: Vec<String> = vec![ops_tokens(&setup)];
+        let big = rng.chance(1, 3);
+        for t in 0..nthreads {
+            let len = if big { rng.range(4, 8) } else { rng.range(2, 5) } as usize;
+            let mut ops: Vec<Op> = Vec::new();
+            // task roles: 0 = writer, 1 = watcher, others drawn
+            let role = if t == 0 { 0 } else if t == 1 { 1 } else { *rng.pick(&[0u64, 0, 1, 2, 3]) };
+            match role {
+                0 => {
+                    for _ in 0..len {
+                        ops.push(match rng.below(12) {
+                            0 => Op::Clear(0, n.clone()),
+                            _ => Op::Set(0, n.clone(), rng.below(3) as u8),
+                        });
+                    }
+                }
+                1 | 3 => {
+                    ops.push(Op::Watch(0, n.clone()));
+                    for _ in 0..len {
+                        ops.push(Op::Next(0));
+                    }
+                    if rng.chance(1, 5) {
+                        ops.push(Op::Watch(0, n.clone()));
+                        ops.push(Op::Next(0));
+                    }
+                }
+                _ => {
+                    for _ in 0..len {
+                        ops.push(match rng.below(5) {
+                            0 => Op::Set(0, n.clone(), rng.below(3) as u8),
+                            1 => Op::Check(0, if n.is_empty() { "a".to_string() } else { "".to_string() }),
+                            _ => Op::Check(0, n.clone()),
+                        });
+                    }
+                }
+            }
+            programs.push(ops_tokens(&ops));
+        }
+        out.push(format!("conc {} {}", rng.below(1 << 30), programs.join(" | ")));
+    }
 }
